@@ -27,6 +27,7 @@ REQUIRED_THEOREMS = ['CfVerif.C05.' + t for t in (
     'readd_stable', 'resolved_stable', 'readd_live_counterexample',
     'add_config_partial_failure', 'configured_list_stable', 'accepted_variables_are_configured_list',
     'synclogger_fifo', 'sample_queued_once', 'next_takes_head', 'ends_at_disconnect',
+    'gen_sl_statement_order', 'inv_initial', 'no_sample_lost', 'interleaved_fifo',
     # Gen obligations
     'gen_types_single_code', 'gen_id_from_cstring', 'gen_logvar_init', 'gen_conf_init', 'gen_add_variable', 'gen_flag_setters',
     'gen_cmd_select', 'gen_setup_elements', 'gen_packet_size', 'gen_split_arith', 'gen_create', 'gen_start_stop_delete', 'gen_unpack',
@@ -39,8 +40,11 @@ TRUSTED = ['harness/corr/c05.py extractor + correspondence harness (fake cf at s
            'conversion inside struct is CPython\'s)',
            'variable names abstracted to keys (a name not of the form group.name = a key absent from the table); Python dict = insertion-ordered map',
            'queue.Queue is FIFO; Caller.call iterates over a copy; Caller.add_callback ignores duplicates']
-ASSUMPTIONS = ['single-threaded histories: operations of the user thread and packets from the incoming-packet thread are interleaved at operation '
-               'granularity, not inside create() (so a create ack processed between the create and append packets is outside the model)',
+ASSUMPTIONS = ['threads: SyncLogger.connect()/disconnect() are interleaved with the incoming-packet thread at STATEMENT granularity (every source '
+               'statement of the two methods is an atomic step, any packets/operations in between); all other API calls are atomic, so a create ack '
+               'processed between the create and append packets inside create()/start() is outside the model',
+               'no_sample_lost excludes, between the statements of a call, the atomic slConnect/slDisconnect operations, a link loss and '
+               'add_variable/add_memory (they are modelled and corresponded, not covered by that theorem)',
                'period_in_ms is an integer (int(ms/10) modelled by truncating division); float periods are exercised only by search()',
                'user callbacks do not raise and do not re-enter the log API',
                'LogConfig attributes are changed only through the API (id is never None, period is not re-assigned)',
@@ -55,7 +59,9 @@ RULE = ('cases = histories (one fresh Log per case) of the operation vocabulary 
         'status incl. unknown ones, id-counter wrap-around, MAX_BLOCKS / MAX_VARIABLES exhaustion, malformed packets on channels 0-3. '
         'rejected-then-re-added: a default-typed variable missing at EVERY position of lists of 1..6 names (and random typed/size/period rejections), '
         'then 1-3 reconnects to other tables (other idents, protocol generation, again incomplete or complete) with re-add, create, acks, data. '
-        'The reply to EVERY operation (exception class, packets handed to send_packet with expected_reply, callbacks with arguments, decoded samples, '
+        'interleavings: the REAL connect()/disconnect() are executed one source statement at a time (own thread under sys.settrace, baton '
+        'hand-over, no sleeps) with create/start/stop/delete acks, data packets, next() calls, other loggers and reconnects delivered between '
+        'the statements. The reply to EVERY operation (exception class, packets handed to send_packet with expected_reply, callbacks with arguments, decoded samples, '
         'queue traffic, digest of all public state) is compared.  distinct = distinct request-line sequences; every case is non-trivial (>= 5 operations)')
 
 LOG = 'cflib/crazyflie/log.py'
@@ -283,6 +289,44 @@ def extract(ctx):
         f = X.find(sl, fn)
         g.strings('sl' + fn.strip('_').capitalize() + 'Body', [ast.unparse(s).replace('\n', ' ; ') for s in f.body
                                                               if not (isinstance(s, ast.Expr) and isinstance(s.value, ast.Constant))])
+    # statement order of the loops of connect() / disconnect() (the atomic steps of the interleaving model)
+    def loop_order(fn):
+        f = X.find(sl, fn)
+        loops = [n for n in ast.walk(f) if isinstance(n, ast.For)]
+        X.expect(len(loops) == 1 and ast.unparse(loops[0].iter) == 'self._log_config' and ast.unparse(loops[0].target) == 'config',
+                 'SyncLogger.%s: expected one `for config in self._log_config` loop' % fn)
+        names = []
+        for stn in loops[0].body:
+            X.expect(isinstance(stn, ast.Expr) and isinstance(stn.value, ast.Call) and isinstance(stn.value.func, ast.Attribute),
+                     'SyncLogger.%s: loop statement is not a method call: %s' % (fn, ast.unparse(stn)))
+            names.append(ast.unparse(stn.value.func).replace('self._cf.log.', 'log.'))
+        return loops[0], names
+    cl, cnames = loop_order('connect')
+    g.strings('slConnectLoopOrder', cnames)
+    dl, dnames = loop_order('disconnect')
+    g.strings('slDisconnectLoopOrder', dnames)
+
+    def shape(fn, loop):
+        """top-level statement kinds around the loop, in order"""
+        f = X.find(sl, fn)
+        out = []
+
+        def walk(body):
+            for stn in body:
+                if isinstance(stn, ast.Expr) and isinstance(stn.value, ast.Constant):
+                    continue
+                if stn is loop:
+                    out.append('LOOP')
+                elif isinstance(stn, ast.If):
+                    out.append('if ' + ast.unparse(stn.test) + ':')
+                    walk(stn.body)
+                    out.append('endif')
+                else:
+                    out.append(ast.unparse(stn))
+        walk(f.body)
+        return out
+    g.strings('slConnectShape', shape('connect', cl))
+    g.strings('slDisconnectShape', shape('disconnect', dl))
     return {'C05.lean': g.render()}
 
 
@@ -375,6 +419,7 @@ class Real:
         self.log.block_added_cb.add_callback(lambda c: self.ev.append('badd:%d' % self.hof(c)))
         self.confs = []
         self.sls = []
+        self.calls = {}          # SyncLogger index -> Stepper of the connect()/disconnect() call in progress
 
         class NBQueue(queue.Queue):
             def __init__(q, s):
@@ -469,6 +514,7 @@ class Real:
             return 'ok period=%d vars=%s defaults=%s' % (c.period, vs or '-', ','.join(str(name_key(n)) for n in c.default_fetch_as) or '-')
         self.ev = []
         err = None
+        left = 0
         try:
             if op == 'newconf':
                 self.new_conf(int(words[1]))
@@ -506,6 +552,31 @@ class Real:
                 self.sls[int(words[1])].connect()
             elif op == 'sldisconnect':
                 self.sls[int(words[1])].disconnect()
+            elif op == 'slbegin':
+                i = int(words[1])
+                if i in self.calls or words[2] not in ('connect', 'disconnect'):
+                    return 'bad-op'
+                stp = Stepper(self.sls[i], words[2])
+                stp.begin()
+                if stp.done:
+                    stp.th.join(5)
+                    if stp.err is not None:
+                        raise stp.err
+                else:
+                    self.calls[i] = stp
+                left = 0 if stp.done else 1
+            elif op == 'slrun':
+                i = int(words[1])
+                if i not in self.calls:
+                    return 'bad-op'
+                stp = self.calls[i]
+                stp.step()
+                left = 0 if stp.done else 1
+                if stp.done:
+                    del self.calls[i]
+                    stp.th.join(5)
+                    if stp.err is not None:
+                        raise stp.err
             elif op == 'slnext':
                 s = self.sls[int(words[1])]
                 n0 = s._queue.qsize()
@@ -520,7 +591,97 @@ class Real:
                 return 'bad-op'
         except Exception as e:
             err = exc_enum(e)
-        return '%s outs=%s st=%s' % ('ok' if err is None else 'err:' + err, ';'.join(self.ev) or '-', self.digest())
+        rep = '%s outs=%s st=%s' % ('ok' if err is None else 'err:' + err, ';'.join(self.ev) or '-', self.digest())
+        if op in ('slbegin', 'slrun'):
+            rep += ' left=%d' % (0 if err is not None else left)
+        return rep
+
+    def close(self):
+        for stp in list(self.calls.values()):
+            stp.kill()
+        self.calls = {}
+
+
+class _Abort(BaseException):
+    pass
+
+
+class Stepper:
+    """runs the REAL SyncLogger.connect / .disconnect one source statement at a time: the call executes in its own thread under
+    sys.settrace and parks before the first line of every simple statement of the method; main and the call thread hand a baton
+    back and forth (semaphores, exactly one runs at a time, no sleeps), so everything the harness does between two `step()`s
+    happens between two statements of the call, as if the incoming-packet thread had run there"""
+
+    def __init__(self, sl, which):
+        import inspect
+        import threading
+        fn = getattr(type(sl), which)
+        self.code = fn.__code__
+        src, first = inspect.getsourcelines(fn)
+        import textwrap
+        tree = ast.parse(textwrap.dedent(''.join(src)))
+        self.spans = {}
+        for n in ast.walk(tree):
+            if isinstance(n, (ast.Expr, ast.Assign, ast.AugAssign)) and not (isinstance(n, ast.Expr) and isinstance(n.value, ast.Constant)):
+                self.spans[first + n.lineno - 1] = (first + n.lineno - 1, first + n.end_lineno - 1)
+        self.cur = None
+        self.sl = sl
+        self.fn = fn
+        self.err = None
+        self.done = False
+        self.abort = False
+        self.to_main = threading.Semaphore(0)
+        self.to_thread = threading.Semaphore(0)
+        self.th = threading.Thread(target=self._target, daemon=True)
+
+    def _park(self):
+        self.to_main.release()
+        self.to_thread.acquire()
+        if self.abort:
+            raise _Abort()
+
+    def _local(self, frame, event, arg):
+        if event == 'line':
+            ln = frame.f_lineno
+            if self.cur is not None and self.cur[0] <= ln <= self.cur[1]:
+                return self._local
+            self.cur = None
+            if ln in self.spans:
+                self.cur = self.spans[ln]
+                self._park()
+        return self._local
+
+    def _tracer(self, frame, event, arg):
+        return self._local if frame.f_code is self.code else None
+
+    def _target(self):
+        import sys
+        sys.settrace(self._tracer)
+        try:
+            self.fn(self.sl)
+        except _Abort:
+            pass
+        except Exception as e:
+            self.err = e
+        finally:
+            sys.settrace(None)
+            self.done = True
+            self.to_main.release()
+
+    def begin(self):
+        self.th.start()
+        self.to_main.acquire()
+
+    def step(self):
+        self.to_thread.release()
+        self.to_main.acquire()
+
+    def kill(self):
+        if not self.done:
+            self.abort = True
+            self.to_thread.release()
+            self.to_main.acquire()
+        self.th.join(5)
 
 
 class _NullCache:
@@ -851,6 +1012,78 @@ def gen_reject_readd_case(rng, ndef=None, miss=None):
     return cs
 
 
+def gen_interleave_case(rng):
+    """connect() / disconnect() of SyncLoggers executed statement by statement (the real methods, stepped under a tracer) with
+    acknowledgements, data packets, next() calls and other operations delivered BETWEEN the statements"""
+    cs = Case('interleave')
+    els = make_toc(rng, 8)
+    for l in connect_lines(5, els):
+        cs.do(l)
+    nconf = rng.choice([1, 1, 2, 3])
+    for h in range(nconf):
+        cs.do('newconf %d' % rng.choice([100, 100, 100, 0]))
+        for _ in range(rng.choice([1, 2])):
+            cs.do('addvar %d %d %s' % (h, rng.randrange(8 + (1 if rng.random() < 0.05 else 0)), rng.choice(['-'] + TYPE_NAMES)))
+    cs.do('newsl ' + ','.join(map(str, range(nconf))))
+    if rng.random() < 0.3:
+        cs.do('newsl 0')
+
+    def env():
+        r = cs.r
+        x = rng.random()
+        live = [c for c in r.confs if c.cf is not None]
+        if x < 0.45 and live:
+            c = rng.choice(live)
+            cmd = rng.choice([6, 6, 6, 3, 3, 4, 2])
+            cs.do('rx 1 %s' % hexs([cmd, c.id, rng.choice([0, 0, 0, 0, 17, 2, 12])]))
+        elif x < 0.80 and live:
+            cs.do(cs.data_line(rng, r.confs.index(rng.choice(live)), mangle=False))
+        elif x < 0.90:
+            cs.do('slnext %d' % rng.randrange(len(r.sls)))
+        elif x < 0.93:
+            cs.do(rng.choice(['start', 'stop', 'delete']) + ' %d' % rng.randrange(nconf))
+        elif x < 0.96 and len(r.sls) > 1:
+            cs.do(rng.choice(['slconnect 1', 'sldisconnect 1', 'slbegin 1 connect', 'slrun 1']))
+        elif x < 0.98:
+            cs.do('linklost')
+            for l in connect_lines(5, els):
+                cs.do(l)
+        else:
+            cs.do('addconfig %d' % rng.randrange(nconf))
+
+    def call(which):
+        rep = cs.do('slbegin 0 ' + which)
+        for _ in range(rng.choice([0, 0, 1, 2])):
+            env()
+        guard = 0
+        while 0 in cs.r.calls and guard < 60:
+            guard += 1
+            rep = cs.do('slrun 0')
+            # after a statement that transmitted (start/stop/delete): the incoming thread may answer before the next statement
+            burst = 3 if 'tx:' in rep and rng.random() < 0.7 else rng.choice([0, 0, 1, 2])
+            if 'tx:06' in rep and rng.random() < 0.6:
+                for c in cs.r.confs:
+                    if c.cf is not None and c.pending:
+                        cs.do('rx 1 %s' % hexs([6, c.id, 0]))
+                        cs.do('rx 1 %s' % hexs([3, c.id, 0]))
+                        cs.do(cs.data_line(rng, cs.r.confs.index(c), mangle=False))
+            for _ in range(burst):
+                env()
+    for _ in range(rng.choice([1, 1, 2])):
+        call('connect')
+        for _ in range(rng.randrange(0, 6)):
+            env()
+        if rng.random() < 0.7:
+            call('disconnect')
+        for _ in range(rng.randrange(0, 3)):
+            env()
+    for sidx in range(len(cs.r.sls)):
+        for _ in range(3):
+            cs.do('slnext %d' % sidx)
+    cs.r.close()
+    return cs
+
+
 def gen_malformed_case(rng):
     cs = Case('malformed')
     els = make_toc(rng, 6)
@@ -953,6 +1186,8 @@ def gen_cases(ctx):
         cases.append(gen_history_case(rng, rng.randrange(1, 13)))
     for _ in range(5000 if th else 800):
         cases.append(gen_sync_case(rng))
+    for _ in range(2500 if th else 400):
+        cases.append(gen_interleave_case(rng))
     for _ in range(1200 if th else 200):
         cases.append(gen_malformed_case(rng))
     return cases
@@ -960,6 +1195,8 @@ def gen_cases(ctx):
 
 def correspond(ctx):
     cases = gen_cases(ctx)
+    for c in cases:
+        c.r.close()
     lines = [l for c in cases for l in c.lines]
     replies = ctx.lean(DRIVER, lines)
     i = 0
@@ -1292,6 +1529,57 @@ def search(ctx):
         if got != want[:len(got)] or not ended:
             ctx.witness('synclogger-fifo', 'SyncLogger did not yield the decoded samples once, in order, ending at disconnect',
                         {'script': ''.join(script)}, got=got, want=want, ended=ended, drained=drained)
+
+    # (7b) the same over schedules of the incoming thread relative to connect(): the real connect() is executed statement by
+    #      statement and the create ack, start ack and data packets of a block are delivered between ANY two statements after its
+    #      start was requested; every sample decoded from then on must be yielded exactly once, in order
+    for trial in range(60 + (600 if th else 120)):
+        r = Real()
+        _connect(r, 5, els40)
+        nconf = 1 + trial % 3
+        for h in range(nconf):
+            r.do(['newconf', '100'])
+            r.confs[h].add_variable(name_str(2 + 8 * h), 'uint16_t')
+        r.do(['newsl', ','.join(map(str, range(nconf)))])
+        # after which statement (0-based count of statements executed) the incoming thread gets to run, and how much
+        slot = trial % 12 if trial < 60 else None
+        decoded, requested, nstmt, seq = [], set(), 0, 0
+        sched = []
+        rep = r.do(['slbegin', '0', 'connect'])
+        while 0 in r.calls and nstmt < 40:
+            rep = r.do(['slrun', '0'])
+            nstmt += 1
+            for c in r.confs:
+                if ('tx:06%02x' % c.id) in rep or ('tx:03%02x' % c.id) in rep:
+                    requested.add(c.id)                  # config.start() was executed for this block
+            deliver = (slot == nstmt) if slot is not None else rng.random() < 0.5
+            if deliver:
+                for c in r.confs:
+                    if c.id in requested:
+                        for pkt in ([6, c.id, 0], [3, c.id, 0]):
+                            r.do(['rx', '1', bytes(pkt).hex()])
+                        for _ in range(rng.choice([1, 2])):
+                            seq += 1
+                            v = rng.getrandbits(16)
+                            r.do(['rx', '2', (bytes([c.id]) + seq.to_bytes(3, 'little') + v.to_bytes(2, 'little')).hex()])
+                            decoded += [e for e in r.ev if e.startswith('data:')]
+                            sched.append((nstmt, c.id, seq))
+        for c in r.confs:                                # steady state: one more sample per block
+            if c.id in requested:
+                seq += 1
+                r.do(['rx', '2', (bytes([c.id]) + seq.to_bytes(3, 'little') + b'\x07\x00').hex()])
+                decoded += [e for e in r.ev if e.startswith('data:')]
+        got = []
+        for _ in range(len(decoded) + 2):
+            r.do(['slnext', '0'])
+            got += [e for e in r.ev if e.startswith('yield:')]
+        r.close()
+        want = ['yield:0:S/%s/%s/%s' % (d.split(':')[2], d.split(':')[1], d.split(':')[3]) for d in decoded]
+        if got != want:
+            ctx.witness('synclogger-sample-lost-interleaving', 'a sample decoded for a block after its start was requested (delivered between two '
+                        'statements of SyncLogger.connect) was not yielded exactly once, in order',
+                        {'configs': nconf, 'deliveries_after_statement_block_seq': sched}, decoded=decoded, yielded=got)
+            break
 
     # (8) end to end against the shared simulated firmware (real Crazyflie object, real dispatch path)
     if S is not None:
